@@ -29,6 +29,7 @@ CONSTANTS
   Goals,         \* hop counts an originator may ask for
   Origins,       \* nodes that originate circuits
   AdvKinds,      \* adversary actions enabled in this configuration
+  NodeRank,      \* [Node -> Nat] order in which simultaneous periodic timers are explored (model checking only)
   AdvSrcs,       \* source addresses the attacker claims (its own, spoofed honest ones)
   UseIds,        \* TRUE: datagrams carry their send sequence number (trace validation); FALSE: anonymous (model checking)
   TrackWire,     \* keep the eavesdropper's history (needed by NoRepeatOnLinks / replayed destroys)
@@ -162,27 +163,29 @@ RemoveCircuitStep(n, cid, destroy) ==
    pend  |-> pend \cup {Pending(n, "circuit", cid)},
    msgs  |-> IF destroy THEN <<Destroy(n, FirstHopAddr(c), cid, n)>> ELSE <<>>]
 
+\* (teardowns, disappearances and losses share one budget in model checking: MaxLoss disturbances per behaviour)
+Disturb == budget.loss < MaxLoss /\ budget' = [budget EXCEPT !.loss = @ + 1]
 RemoveCircuit(o, cid, destroy) ==
-  /\ Has(circ[o], cid) /\ (UseIds \/ ~circ[o][cid].closing)
+  /\ Has(circ[o], cid) /\ (UseIds \/ ~circ[o][cid].closing) /\ Disturb
   /\ LET r == RemoveCircuitStep(o, cid, destroy) IN
        /\ circ' = [circ EXCEPT ![o] = r.circ] /\ retryC' = [retryC EXCEPT ![o] = r.retry] /\ pend' = r.pend
        /\ Emit({}, StampIds(r.msgs)) /\ ctr' = [ctr EXCEPT !.msg = BumpN(o, @, Len(r.msgs))]
-  /\ UNCHANGED <<relay, exit, createdC, createC, pingC, now, sweepAt, pingAt, hist, budget>>
+  /\ UNCHANGED <<relay, exit, createdC, createC, pingC, now, sweepAt, pingAt, hist>>
 
 \* a relay tears its route down (remove_relay(cid, destroy=True)): the destroy goes to the far side of that entry
 NodeRemoveRelay(n, cid) ==
-  /\ Has(relay[n], cid)
+  /\ Has(relay[n], cid) /\ Disturb
   /\ pend' = pend \cup {Pending(n, "relay", cid)}
   /\ Emit({}, StampIds(<<Destroy(n, relay[n][cid].next, relay[n][cid].to, n)>>))
   /\ ctr' = [ctr EXCEPT !.msg = BumpN(n, @, 1)]
-  /\ UNCHANGED <<circ, relay, exit, retryC, createdC, createC, pingC, now, sweepAt, pingAt, hist, budget>>
+  /\ UNCHANGED <<circ, relay, exit, retryC, createdC, createC, pingC, now, sweepAt, pingAt, hist>>
 \* an exit tears its socket down (remove_exit_socket(cid, destroy=True)): the destroy goes to the previous hop
 NodeRemoveExit(n, cid) ==
-  /\ Has(exit[n], cid)
+  /\ Has(exit[n], cid) /\ Disturb
   /\ pend' = pend \cup {Pending(n, "exit", cid)}
   /\ Emit({}, StampIds(<<Destroy(n, exit[n][cid].prev, cid, n)>>))
   /\ ctr' = [ctr EXCEPT !.msg = BumpN(n, @, 1)]
-  /\ UNCHANGED <<circ, relay, exit, retryC, createdC, createC, pingC, now, sweepAt, pingAt, hist, budget>>
+  /\ UNCHANGED <<circ, relay, exit, retryC, createdC, createC, pingC, now, sweepAt, pingAt, hist>>
 
 (* ---------------------------------------------- handlers ------------------------------------------------ *)
 \* what process_cell does before a handler sees the message: <<kind, L'>> with kind in relay / handle / drop
@@ -436,7 +439,7 @@ PingAll(n, cids, cs, pc, acc) ==
                   Put(pc, id, now + CacheTO), Append(acc, cell))
 
 DoPing(n) ==
-  /\ AutoTimers => now = pingAt[n]
+  /\ AutoTimers => pingAt[n] <= now
   /\ LET r == PingAll(n, SetToSortSeq(PingTargets(n), LAMBDA a, b : a < b), circ[n], pingC[n], <<>>) IN
        /\ circ' = [circ EXCEPT ![n] = r.circ] /\ pingC' = [pingC EXCEPT ![n] = r.ping]
        /\ Emit({}, StampIds(r.msgs))
@@ -544,7 +547,7 @@ CacheTimeout(n, kind, k) ==
 
 \* do_circuits -> do_remove (periodic sweep): inactive / too old entries are scheduled for removal
 Sweep(n) ==
-  /\ AutoTimers => now = sweepAt[n]
+  /\ AutoTimers => sweepAt[n] <= now
   /\ LET deadC == {c \in DOMAIN circ[n] : (CState(circ[n][c]) = "READY" /\ circ[n][c].act + Inactive < now)
                                             \/ (circ[n][c].born + MaxTime < now)}
          deadR == IF SweepRelays THEN {c \in DOMAIN relay[n] : relay[n][c].act + Inactive < now} ELSE {}
@@ -556,18 +559,24 @@ Sweep(n) ==
   /\ sweepAt' = [sweepAt EXCEPT ![n] = now + SweepEvery]
   /\ UNCHANGED <<relay, exit, createdC, createC, pingC, net, ctr, now, pingAt, hist, budget>>
 
+\* periodic timers only matter (and are only model-checked) for nodes that have something to sweep / ping
+HasEntries(n) == circ[n] # EmptyF \/ relay[n] # EmptyF \/ exit[n] # EmptyF
+\* model checking only: simultaneous periodic timers of different nodes commute; they are taken in a fixed node order
+EarlierDue(n) == \E m \in Node : NodeRank[m] < NodeRank[n] /\
+                    ((HasEntries(m) /\ sweepAt[m] <= now) \/ (PingTargets(m) # {} /\ pingAt[m] <= now))
 \* time passes, but never beyond a deadline that is due
 Deadlines ==
   {p.due : p \in pend} \cup UNION {{retryC[n][c].due : c \in DOMAIN retryC[n]} : n \in Node}
   \cup UNION {{createdC[n][c].due : c \in DOMAIN createdC[n]} : n \in Node}
   \cup UNION {{createC[n][c].due : c \in DOMAIN createC[n]} : n \in Node}
   \cup UNION {{pingC[n][c] : c \in DOMAIN pingC[n]} : n \in Node}
-  \cup (IF AutoTimers THEN {sweepAt[n] : n \in Node} \cup {pingAt[n] : n \in Node} ELSE {})
+  \cup (IF AutoTimers THEN {sweepAt[n] : n \in {m \in Node : HasEntries(m)}} \cup {pingAt[n] : n \in {m \in Node : PingTargets(m) # {}}}
+        ELSE {})
 
 \* the node's endpoint closes for good (process gone / cable pulled): nothing is sent or received any more
 Vanish(n) ==
-  /\ MayVanish /\ n \notin gone /\ gone' = gone \cup {n}
-  /\ UNCHANGED <<circ, relay, exit, retryC, createdC, createC, pingC, pend, net, ctr, now, sweepAt, pingAt, hist, budget>>
+  /\ MayVanish /\ n \notin gone /\ gone' = gone \cup {n} /\ Disturb
+  /\ UNCHANGED <<circ, relay, exit, retryC, createdC, createC, pingC, pend, net, ctr, now, sweepAt, pingAt, hist>>
 
 (* -------------------------------------------- network faults -------------------------------------------- *)
 Lose(d) == /\ d \in net /\ budget.loss < MaxLoss
@@ -674,7 +683,9 @@ Core ==
   \/ \E d \in net : Deliver(d)
   \/ NodeTeardown /\ \E n \in Node, cid \in 1..ctr.cid : (~\E q \in pend : q.n = n /\ q.cid = cid) /\ (NodeRemoveRelay(n, cid) \/ NodeRemoveExit(n, cid))
   \/ \E x \in Node, cid \in 1..ctr.cid, p \in 1..ctr.data : ExitReturn(x, cid, p)
-  \/ \E n \in Node : (AutoTimers /\ now = pingAt[n] /\ DoPing(n)) \/ (AutoTimers /\ now = sweepAt[n] /\ Sweep(n))
+  \/ \E n \in Node : AutoTimers /\ ~EarlierDue(n) /\
+        ((HasEntries(n) /\ sweepAt[n] <= now /\ Sweep(n))
+         \/ (~(HasEntries(n) /\ sweepAt[n] <= now) /\ PingTargets(n) # {} /\ pingAt[n] <= now /\ DoPing(n)))
   \/ \E p \in pend : PendPop(p)
   \/ \E n \in Node, cid \in 1..ctr.cid : RetryTimeout(n, cid)
   \/ \E n \in Node, kind \in {"created", "create", "ping"}, k \in 1..(ctr.cid + ctr.ident) : CacheTimeout(n, kind, k)
@@ -741,13 +752,12 @@ EntriesStable ==
        /\ \A c \in DOMAIN relay[n] \cap DOMAIN relay'[n] : relay'[n][c].key = relay[n][c].key
                                                           /\ relay'[n][c].dir = relay[n][c].dir
        /\ \A c \in DOMAIN circ[n] \cap DOMAIN circ'[n] : IsPrefix(circ[n][c].hops, circ'[n][c].hops)]_vars
-\* a circuit id names one thing per node: a create never installs an exit socket under an id the node already uses
-\* (the only legitimate overlap is an exit entry that became a relay and is waiting for its delayed removal)
+\* a create never installs an exit socket under the id of one of the node's own circuits (which it would shadow in
+\* incoming_crypto); relay and exit entries may share an id while an exit that became a relay waits for its delayed removal
 NoShadow ==
   \A n \in Node :
      /\ DOMAIN circ[n] \cap DOMAIN exit[n] = {}
      /\ DOMAIN circ[n] \cap DOMAIN relay[n] = {}
-     /\ \A c \in DOMAIN relay[n] \cap DOMAIN exit[n] : \E q \in pend : q.n = n /\ q.kind = "exit" /\ q.cid = c
 \* the node adjacent to entry (n, cid) - the only one whose destroy may remove it
 Adjacent(n, cid) ==
   IF Has(relay[n], cid) /\ Has(relay[n], relay[n][cid].to) THEN relay[n][relay[n][cid].to].next
